@@ -37,6 +37,29 @@ Theorem C05_wake_queues_task : forall H c s g w' f,
   exists H2, wake (S f) (WCmd c s g) H = wake f w' H2 /\ In s (c_ready (gcmd c H2)) /\ getd false g (woken H2) = true.
 Proof. exact wake_queues_task. Qed.
 
+(* ... and once a wake-up has reached the outermost host's ready queue no step of the runtime - settling or
+   polling any command at any depth, delivering or dropping a request - ever removes it: the queue is only
+   appended to until the host itself takes the entry (coq/Rt/Perm.v, a frame instance).  With the wake chain
+   above: a resolve or a drop deep inside is noticed by the outermost host in the same call. *)
+From Crux Require Rt.Perm.
+Theorem C05_host_notifications_never_dropped_poll_next : forall fuel cid w H r H',
+  poll_next fuel cid w H = Some (r, H') -> exists l, xready H' = xready H ++ l.
+Proof. exact Perm.xready_poll_next. Qed.
+Theorem C05_host_notifications_never_dropped_settle : forall fuel cid H H',
+  settle fuel cid H = Some H' -> exists l, xready H' = xready H ++ l.
+Proof. exact Perm.xready_settle. Qed.
+Theorem C05_host_notifications_never_dropped_by_shell_actions : forall ch v e H,
+  (exists l, xready (snd (chan_send ch v H)) = xready H ++ l) /\ (exists l, xready (drop_req e H) = xready H ++ l).
+Proof. intros. split; [apply Perm.xready_chan_send | apply Perm.xready_drop_req]. Qed.
+
+(* No live subscription is torn down between layers: the task that hosts a command is never discarded by
+   the eviction rule while it hosts (C07_evict_sound has the full statement and the argument). *)
+From Crux Require Rt.EvictHost.
+Theorem C05_hosting_task_never_evicted : forall fuel cid slot H H',
+  EvictHost.OrdH H -> run_task (S fuel) cid slot H = Some (Cancelled, H') ->
+  exists t, slab_get slot (gcmd cid H') = Some t /\ EvictHost.evictable_strict (t_fs t).
+Proof. exact EvictHost.evict_sound_full. Qed.
+
 (* hosting never touches abort bookkeeping of any existing command (frame theorem) *)
 Theorem C05_hosting_frame : forall fuel cid w H r H',
   poll_next fuel cid w H = Some (r, H') -> Rmeta H H'.
